@@ -33,6 +33,16 @@ impl Connection {
     pub closed spec fn locale(&self) -> Option<Seq<char>> { opt_str(self.client_locale) }
 }
 
+/// C07: the frame most recently taken from the client is a configuration-phase Keep Alive (id 0x04) that carries `id`
+pub open spec fn echo_frame_last(ev: Seq<Ev>, id: u64) -> bool {
+    ev.len() > 0 && (ev.last() matches Ev::Recv(rid, body) && rid == 0x04
+        && (decode_of::<conf_in::KeepAlivePacket>(body) matches Ok(p) && p.id == id))
+}
+/// no Keep Alive frame of the client is waiting to be recorded as an echo
+pub open spec fn echo_settled(ev: Seq<Ev>) -> bool {
+    !(ev.len() > 0 && (ev.last() matches Ev::Recv(rid, body) && rid == 0x04 && decode_of::<conf_in::KeepAlivePacket>(body) is Ok))
+}
+
 pub open spec fn ka_kind(e: Ev) -> bool { e is Tick || e matches Ev::Send(Sent::KeepAlive { .. }) }
 
 /// what `receive_packet(true)` may append to the event log
@@ -58,22 +68,29 @@ pub open spec fn ka_service(old_ev: Seq<Ev>, new_ev: Seq<Ev>, locale: Option<Seq
             || (i == new_ev.len() - 1 && timeout_disc(new_ev[i], locale)))
 }
 
-/// C07 trace predicate: a Keep Alive is only ever sent on a timer tick and only while none is unanswered; the timeout
-/// Disconnect only on a tick while one is unanswered
+/// C07 trace predicate: a Keep Alive is only ever sent on a timer tick and only while none is unanswered; a Disconnect that
+/// follows a timer tick (the inactivity timeout) is only sent while one is unanswered - a client that echoed is not dropped
 #[verifier::opaque]
 pub open spec fn ka_wf(ev: Seq<Ev>) -> bool {
     forall |i: int| 0 <= i < ev.len() ==> (
         ((#[trigger] ev[i]) matches Ev::Send(Sent::KeepAlive { .. }) ==> i >= 1 && ev[i - 1] is Tick && outstanding(ev.subrange(0, i)) is None)
+        && (ev[i] matches Ev::Send(Sent::Disconnect { .. }) && i >= 1 && ev[i - 1] is Tick ==> outstanding(ev.subrange(0, i)) is Some)
     )
 }
+/// a Disconnect right after a timer tick needs an unanswered Keep Alive
+pub open spec fn drop_allowed(ev: Seq<Ev>, e: Ev) -> bool {
+    e matches Ev::Send(Sent::Disconnect { .. }) && ev.len() >= 1 && ev.last() is Tick ==> outstanding(ev) is Some
+}
 pub proof fn lemma_ka_wf_push_other(ev: Seq<Ev>, e: Ev)
-    requires ka_wf(ev), !(e matches Ev::Send(Sent::KeepAlive { .. }))
+    requires ka_wf(ev), !(e matches Ev::Send(Sent::KeepAlive { .. })), drop_allowed(ev, e)
     ensures ka_wf(ev.push(e))
 {
     reveal(ka_wf);
     let n = ev.push(e);
-    assert forall |i: int| 0 <= i < n.len() implies ((#[trigger] n[i]) matches Ev::Send(Sent::KeepAlive { .. }) ==> i >= 1 && n[i - 1] is Tick && outstanding(n.subrange(0, i)) is None) by {
+    assert forall |i: int| 0 <= i < n.len() implies (((#[trigger] n[i]) matches Ev::Send(Sent::KeepAlive { .. }) ==> i >= 1 && n[i - 1] is Tick && outstanding(n.subrange(0, i)) is None)
+        && (n[i] matches Ev::Send(Sent::Disconnect { .. }) && i >= 1 && n[i - 1] is Tick ==> outstanding(n.subrange(0, i)) is Some)) by {
         if i < ev.len() { assert(n[i] == ev[i]); assert(n.subrange(0, i) =~= ev.subrange(0, i)); if i >= 1 { assert(n[i - 1] == ev[i - 1]); } }
+        else { assert(n.subrange(0, i) =~= ev); if i >= 1 { assert(n[i - 1] == ev[ev.len() - 1]); } }
     }
 }
 pub proof fn lemma_ka_wf_push_keepalive(ev: Seq<Ev>, id: u64)
@@ -83,7 +100,8 @@ pub proof fn lemma_ka_wf_push_keepalive(ev: Seq<Ev>, id: u64)
     reveal(ka_wf);
     let e = Ev::Send(Sent::KeepAlive { id });
     let n = ev.push(e);
-    assert forall |i: int| 0 <= i < n.len() implies ((#[trigger] n[i]) matches Ev::Send(Sent::KeepAlive { .. }) ==> i >= 1 && n[i - 1] is Tick && outstanding(n.subrange(0, i)) is None) by {
+    assert forall |i: int| 0 <= i < n.len() implies (((#[trigger] n[i]) matches Ev::Send(Sent::KeepAlive { .. }) ==> i >= 1 && n[i - 1] is Tick && outstanding(n.subrange(0, i)) is None)
+        && (n[i] matches Ev::Send(Sent::Disconnect { .. }) && i >= 1 && n[i - 1] is Tick ==> outstanding(n.subrange(0, i)) is Some)) by {
         if i < ev.len() { assert(n[i] == ev[i]); assert(n.subrange(0, i) =~= ev.subrange(0, i)); if i >= 1 { assert(n[i - 1] == ev[i - 1]); } }
         else { assert(n.subrange(0, i) =~= ev); assert(n[i - 1] == ev[ev.len() - 1]); }
     }
@@ -94,7 +112,7 @@ pub proof fn lemma_ka_wf_empty(ev: Seq<Ev>)
 { reveal(ka_wf); }
 /// `pushed` form of the two lemmas (for callers that only know the pointwise relation)
 pub proof fn lemma_ka_wf_pushed_other(old_ev: Seq<Ev>, new_ev: Seq<Ev>, e: Ev)
-    requires ka_wf(old_ev), pushed(old_ev, new_ev, e), !(e matches Ev::Send(Sent::KeepAlive { .. }))
+    requires ka_wf(old_ev), pushed(old_ev, new_ev, e), !(e matches Ev::Send(Sent::KeepAlive { .. })), drop_allowed(old_ev, e)
     ensures ka_wf(new_ev)
 { assert(new_ev =~= old_ev.push(e)); lemma_ka_wf_push_other(old_ev, e); }
 
